@@ -37,7 +37,7 @@ func module(rootPkg bool) pipe.Tree {
 }
 
 var ops = []string{
-	"edit:a", "edit:b", "edit:c", "extra:b", "note:c", "symlink:b",
+	"edit:a", "edit:b", "edit:c", "extra:b", "note:c", "symlink:b", "rmgen:a", "editgen:c",
 	"rmsum", "sum:truncate", "sum:garbage", "sum:swap", "sum:crlf",
 	"run:all", "run:force", "run:fail-b", "run:subset-c", "run:nonall",
 }
@@ -63,6 +63,13 @@ func applyEdit(t pipe.Tree, op string) pipe.Tree {
 			t[f] = strings.TrimSuffix(t[f], mark)
 		} else {
 			t[f] += mark
+		}
+	case op == "rmgen:a":
+		// the user deletes a generated file: a deleted file in the package directory like any other
+		delete(t, "a/zz_generated.g1.go")
+	case op == "editgen:c":
+		if g, ok := t["c/zz_generated.g1.go"]; ok && !strings.HasSuffix(g, "// touched by hand\n") {
+			t["c/zz_generated.g1.go"] = g + "// touched by hand\n"
 		}
 	case op == "extra:b":
 		toggle("b/extra.go", "package b\n\ntype Extra int\n")
@@ -695,7 +702,7 @@ func init() {
 	core.RegisterWorker("c08hist", histWorker)
 	core.Register(&core.Prop{
 		ID: "C08", Level: "model_checking", Run: run, Replay: replay,
-		Rule: "explicit-state search: states are real module trees deduplicated by exact content hash, transitions are the 16 listed operations (toggling edits + 5 kinds of real runs), explored to the stated history length from the empty cache, in two layouts; every run transition is judged against the harness' own parse of gengo.sum and its own dirhash of each package directory (skip <=> not Force, entry present, recorded == current), the saved file against the expected sorted lines, and convergence of repeated `run All` is checked from every state up to the stated depth; additionally every history of exactly N operations (ending in a run, >=2 runs) over a 6-operation alphabet is executed inside ONE fresh child process and ONE directory with in-place edits (hidden process state); non-trivial = states reached by >=2 operations",
+		Rule: "explicit-state search: states are real module trees deduplicated by exact content hash, transitions are the 18 listed operations (toggling edits of sources, non-Go files, a dangling symlink, deleting or hand-editing a GENERATED file, 5 manipulations of gengo.sum, 5 kinds of real runs), explored to the stated history length from the empty cache, in two layouts; every run transition is judged against the harness' own parse of gengo.sum and its own dirhash of each package directory (skip <=> not Force, entry present, recorded == current), the saved file against the expected sorted lines, and convergence of repeated `run All` is checked from every state up to the stated depth; additionally every history of exactly N operations (ending in a run, >=2 runs) over a 6-operation alphabet is executed inside ONE fresh child process and ONE directory with in-place edits (hidden process state); non-trivial = states reached by >=2 operations",
 		Assumptions: []string{
 			"identical trees have identical futures (the only other input, Go map order, is C04's subject)",
 			"a directory that cannot be hashed (dangling symlink) is an environment fault: the package must never be skipped, its sum line is otherwise unconstrained and it is exempt from 'nothing is regenerated'",
